@@ -85,12 +85,14 @@ Record st := {
   closed : bool;
   next_id : N;
   gen : N;
-  log : list lentry      (* attempt starts, newest first *)
+  log : list lentry;     (* attempt starts, newest first *)
+  zombies : list timer   (* timers that have expired but whose goroutine has not yet entered attemptReconnect's
+                            critical section (scheduling latency); Stop() can no longer reach them *)
 }.
 
 Definition init (offset : Z) : st :=
   {| now := offset; heap := []; smap := []; timers := []; flights := []; paused := false; closed := false;
-     next_id := 0%N; gen := 0%N; log := [] |}.
+     next_id := 0%N; gen := 0%N; log := []; zombies := [] |}.
 
 (* ------------------------------------------------------------------ *)
 (** arithmetic *)
@@ -139,7 +141,7 @@ Definition stop_of (o : rstate) (ts : list timer) : list timer :=
 
 Definition with_heap (s : st) (h : list rstate) : st :=
   {| now := now s; heap := h; smap := smap s; timers := timers s; flights := flights s; paused := paused s;
-     closed := closed s; next_id := next_id s; gen := gen s; log := log s |}.
+     closed := closed s; next_id := next_id s; gen := gen s; log := log s; zombies := zombies s |}.
 
 Definition fresh (c : config) : rstate :=
   {| rs_attempts := 0; rs_next := c_initial c; rs_timer := false; rs_timer_id := 0%N; rs_gen := 0%N; rs_inflight := false |}.
@@ -157,7 +159,7 @@ Definition arm (v : variant) (c : config) (s : st) (a : N) (i : nat) (o : rstate
   let o' := {| rs_attempts := rs_attempts o; rs_next := rs_next o; rs_timer := true; rs_timer_id := id;
                rs_gen := (if v_single v then g else rs_gen o); rs_inflight := rs_inflight o |} in
   {| now := now s; heap := set_nth (heap s) i o'; smap := smap s; timers := ts ++ [tm]; flights := flights s;
-     paused := paused s; closed := closed s; next_id := N.succ id; gen := g; log := log s |}.
+     paused := paused s; closed := closed s; next_id := N.succ id; gen := g; log := log s; zombies := zombies s |}.
 
 (* ------------------------------------------------------------------ *)
 (** Schedule(addr) *)
@@ -170,7 +172,7 @@ Definition schedule (v : variant) (c : config) (s : st) (a : N) : st :=
     | None =>
         let i := length (heap s) in
         ({| now := now s; heap := heap s ++ [fresh c]; smap := (a, i) :: smap s; timers := timers s;
-            flights := flights s; paused := paused s; closed := closed s; next_id := next_id s; gen := gen s; log := log s |}, i)
+            flights := flights s; paused := paused s; closed := closed s; next_id := next_id s; gen := gen s; log := log s; zombies := zombies s |}, i)
     end in
   match nth_error (heap s1) i with
   | None => s1
@@ -178,10 +180,10 @@ Definition schedule (v : variant) (c : config) (s : st) (a : N) : st :=
       if v_single v && rs_inflight o then s1 else
       (* cancel any existing timer *)
       let s2 := {| now := now s1; heap := heap s1; smap := smap s1; timers := stop_of o (timers s1); flights := flights s1;
-                   paused := paused s1; closed := closed s1; next_id := next_id s1; gen := gen s1; log := log s1 |} in
+                   paused := paused s1; closed := closed s1; next_id := next_id s1; gen := gen s1; log := log s1; zombies := zombies s1 |} in
       if (0 <? c_max_attempts c) && (c_max_attempts c <=? rs_attempts o)
       then {| now := now s2; heap := heap s2; smap := remove_addr a (smap s2); timers := timers s2; flights := flights s2;
-              paused := paused s2; closed := closed s2; next_id := next_id s2; gen := gen s2; log := log s2 |}
+              paused := paused s2; closed := closed s2; next_id := next_id s2; gen := gen s2; log := log s2; zombies := zombies s2 |}
       else arm v c s2 a i o
   end.
 
@@ -191,7 +193,7 @@ Definition schedule (v : variant) (c : config) (s : st) (a : N) : st :=
 Definition fire (v : variant) (c : config) (s : st) (t : timer) : st :=
   (* the timer is no longer pending *)
   let s0 := {| now := now s; heap := heap s; smap := smap s; timers := stop_timer (t_id t) (timers s); flights := flights s;
-               paused := paused s; closed := closed s; next_id := next_id s; gen := gen s; log := log s |} in
+               paused := paused s; closed := closed s; next_id := next_id s; gen := gen s; log := log s; zombies := zombies s |} in
   match lookup (t_addr t) (smap s0) with
   | None => s0
   | Some i =>
@@ -211,7 +213,7 @@ Definition fire (v : variant) (c : config) (s : st) (t : timer) : st :=
                flights := flights s0 ++ [{| f_addr := t_addr t; f_start := now s0; f_obj := i |}];
                paused := paused s0; closed := closed s0; next_id := next_id s0; gen := gen s0;
                log := {| l_time := now s0; l_addr := t_addr t; l_obj := i; l_k := rs_attempts o;
-                         l_armed := t_armed t; l_karm := t_k t |} :: log s0 |}
+                         l_armed := t_armed t; l_karm := t_k t |} :: log s0; zombies := zombies s0 |}
       end
   end.
 
@@ -231,7 +233,7 @@ Fixpoint min_timer (ts : list timer) : option timer :=
 
 Definition set_now (s : st) (t : Z) : st :=
   {| now := t; heap := heap s; smap := smap s; timers := timers s; flights := flights s; paused := paused s;
-     closed := closed s; next_id := next_id s; gen := gen s; log := log s |}.
+     closed := closed s; next_id := next_id s; gen := gen s; log := log s; zombies := zombies s |}.
 
 (** time advances to [target]; every timer due on the way fires at its due
     time.  Firing arms nothing (the callback blocks until the script answers),
@@ -251,6 +253,46 @@ Fixpoint advance_to (v : variant) (c : config) (fuel : nat) (s : st) (target : Z
 Definition advance (v : variant) (c : config) (s : st) (d : Z) : st :=
   advance_to v c (length (timers s)) s (now s + d).
 
+(** Scheduling latency.  time.AfterFunc runs attemptReconnect on a new
+    goroutine; between the expiry of the timer and the moment that goroutine
+    takes Reconnector.mu anything can happen (Pause, Schedule, ...), and
+    Stop() no longer reaches the timer.  [expire] moves an expired timer to
+    [zombies]; [release_all] lets all of them enter attemptReconnect (in
+    address order: they contend for the mutex at the same instant and commute). *)
+Definition expire (s : st) (t : timer) : st :=
+  {| now := now s; heap := heap s; smap := smap s; timers := stop_timer (t_id t) (timers s); flights := flights s;
+     paused := paused s; closed := closed s; next_id := next_id s; gen := gen s; log := log s;
+     zombies := zombies s ++ [{| t_id := t_id t; t_due := 0; t_addr := t_addr t; t_gen := t_gen t; t_armed := t_armed t; t_k := t_k t |}] |}.
+
+Fixpoint hold_to (fuel : nat) (s : st) (target : Z) : st :=
+  match fuel with
+  | O => set_now s target
+  | S fuel' =>
+      match min_timer (timers s) with
+      | Some t => if t_due t <=? target
+                  then hold_to fuel' (expire (set_now s (Z.max (now s) (t_due t))) t) target
+                  else set_now s target
+      | None => set_now s target
+      end
+  end.
+
+Definition advance_hold (s : st) (d : Z) : st := hold_to (length (timers s)) s (now s + d).
+
+Definition drop_zombie (s : st) (t : timer) : st :=
+  {| now := now s; heap := heap s; smap := smap s; timers := timers s; flights := flights s;
+     paused := paused s; closed := closed s; next_id := next_id s; gen := gen s; log := log s;
+     zombies := stop_timer (t_id t) (zombies s) |}.
+
+Fixpoint release_all (v : variant) (c : config) (fuel : nat) (s : st) : st :=
+  match fuel with
+  | O => s
+  | S fuel' =>
+      match min_timer (zombies s) with
+      | Some t => release_all v c fuel' (fire v c (drop_zombie s t) t)
+      | None => s
+      end
+  end.
+
 (* ------------------------------------------------------------------ *)
 (** the callback of flight number [k] returns: attemptReconnect after the callback *)
 
@@ -268,7 +310,7 @@ Definition reply (v : variant) (c : config) (s : st) (k : nat) (ok : bool) : st 
       let i := f_obj f in
       let a := f_addr f in
       let s0 := {| now := now s; heap := heap s; smap := smap s; timers := timers s; flights := remove_nth (flights s) k;
-                   paused := paused s; closed := closed s; next_id := next_id s; gen := gen s; log := log s |} in
+                   paused := paused s; closed := closed s; next_id := next_id s; gen := gen s; log := log s; zombies := zombies s |} in
       match nth_error (heap s0) i with
       | None => s0
       | Some o =>
@@ -281,7 +323,7 @@ Definition reply (v : variant) (c : config) (s : st) (k : nat) (ok : bool) : st 
           if closed s1 then s1 else
           if v_single v && negb (match lookup a (smap s1) with Some j => Nat.eqb j i | None => false end) then s1 else
           let del := {| now := now s1; heap := heap s1; smap := remove_addr a (smap s1); timers := timers s1; flights := flights s1;
-                        paused := paused s1; closed := closed s1; next_id := next_id s1; gen := gen s1; log := log s1 |} in
+                        paused := paused s1; closed := closed s1; next_id := next_id s1; gen := gen s1; log := log s1; zombies := zombies s1 |} in
           if ok then del else
           if (c_max_attempts c =? 0) || (rs_attempts o1 <? c_max_attempts c) then
             if v_pause v && paused s1 then
@@ -318,15 +360,15 @@ Fixpoint clear_timers (h : list rstate) (m : list (N * nat)) : list rstate :=
 Definition pause (s : st) : st :=
   if paused s || closed s then s else
   {| now := now s; heap := clear_timers (heap s) (smap s); smap := smap s; timers := stop_all (heap s) (smap s) (timers s);
-     flights := flights s; paused := true; closed := closed s; next_id := next_id s; gen := gen s; log := log s |}.
+     flights := flights s; paused := true; closed := closed s; next_id := next_id s; gen := gen s; log := log s; zombies := zombies s |}.
 
 Definition resume (s : st) : st :=
   {| now := now s; heap := heap s; smap := smap s; timers := timers s; flights := flights s; paused := false;
-     closed := closed s; next_id := next_id s; gen := gen s; log := log s |}.
+     closed := closed s; next_id := next_id s; gen := gen s; log := log s; zombies := zombies s |}.
 
 Definition reset_all (s : st) : st :=
   {| now := now s; heap := heap s; smap := []; timers := stop_all (heap s) (smap s) (timers s); flights := flights s;
-     paused := paused s; closed := closed s; next_id := next_id s; gen := gen s; log := log s |}.
+     paused := paused s; closed := closed s; next_id := next_id s; gen := gen s; log := log s; zombies := zombies s |}.
 
 Definition cancel (s : st) (a : N) : st :=
   match lookup a (smap s) with
@@ -334,12 +376,12 @@ Definition cancel (s : st) (a : N) : st :=
   | Some i =>
       {| now := now s; heap := heap s; smap := remove_addr a (smap s);
          timers := (match nth_error (heap s) i with Some o => stop_of o (timers s) | None => timers s end);
-         flights := flights s; paused := paused s; closed := closed s; next_id := next_id s; gen := gen s; log := log s |}
+         flights := flights s; paused := paused s; closed := closed s; next_id := next_id s; gen := gen s; log := log s; zombies := zombies s |}
   end.
 
 Definition stop (s : st) : st :=
   {| now := now s; heap := heap s; smap := []; timers := stop_all (heap s) (smap s) (timers s); flights := flights s;
-     paused := paused s; closed := true; next_id := next_id s; gen := gen s; log := log s |}.
+     paused := paused s; closed := true; next_id := next_id s; gen := gen s; log := log s; zombies := zombies s |}.
 
 (* ------------------------------------------------------------------ *)
 (** events *)
@@ -352,7 +394,9 @@ Inductive op :=
 | Resume
 | ResetAll
 | Cancel (a : N)
-| Stop.
+| Stop
+| AdvHold (d : Z)     (* time advances, expired timers do not get to run yet *)
+| Release.            (* every expired timer goroutine now enters attemptReconnect *)
 
 (** [mgr] = the Reconnector is driven by peer.Manager: the callback is
     Manager.handleReconnect, whose failing dial calls Schedule(addr) BEFORE
@@ -373,6 +417,8 @@ Definition apply (v : variant) (c : config) (mgr : bool) (s : st) (o : op) : st 
   | ResetAll => reset_all s
   | Cancel a => cancel s a
   | Stop => stop s
+  | AdvHold d => advance_hold s d
+  | Release => release_all v c (length (zombies s)) s
   end.
 
 Fixpoint run (v : variant) (c : config) (mgr : bool) (s : st) (ops : list op) : st :=
